@@ -62,6 +62,9 @@ CHECKS = {
  "C17": dict(level="exploration", engine="E-HIST", technique="runtime monitoring: >1 GiB databases replicated and restored; every LTX file stream-scanned for the lock page, restored file stream-compared with the source",
    text="Databases just below 1 GiB are grown across / up to / beyond SQLite's lock page within one sync, then snapshotted, compacted and restored; no LTX file may contain the lock page, every other page must restore exactly, the lock page must be zero.",
    note="quick tier uses page size 65536 only (three placements); thorough covers all eight page sizes", ref="§4 C17"),
+ "C18": dict(level="exploration", engine="E-HIST", technique="runtime monitoring: every page and the file size served by a VFSFile compared with the level-0 image of its position at open and after deterministic poll points; SQL-level dump through a real SQLite connection on the registered VFS",
+   text="Primary histories (growth, auto_vacuum/incremental shrink, VACUUM, compaction, level-0 retention of files being read) with a VFS file opened on the same replica; after open and after each hook-driven poll (also under a SHARED lock, and in time-travel mode) FileSize and every page read through ReadAt must equal the level-0 image of VFSFile.Pos() (masking only header bytes the VFS rewrites); time travel must equal the timestamp restore; a quarter of the histories also compare a logical dump through mattn SQLite on the registered VFS.",
+   note="needs the vfs build variant (cgo); hydration mode is not covered (asynchronous, no hook)", ref="§4 C18"),
 }
 
 # properties not (yet) claimed: id -> reason
